@@ -310,6 +310,27 @@ func parseSQLTime(s string) (string, error) {
 	return "", fmt.Errorf("bad time literal %q", s)
 }
 
+// Prop is the property the running check is about (flag -prop of vrcore); it travels in
+// every case as in.prop so that the Lean handler only evaluates that property's predicates.
+var Prop string
+
+// withProp returns `in` with the member "prop" added (when -prop was given).
+func withProp(in any) any {
+	if Prop == "" {
+		return in
+	}
+	b, err := json.Marshal(in)
+	if err != nil {
+		return in
+	}
+	var m map[string]json.RawMessage
+	if err := json.Unmarshal(b, &m); err != nil {
+		return in
+	}
+	m["prop"] = mustJSON(Prop)
+	return m
+}
+
 func mustJSON(v any) json.RawMessage {
 	b, err := json.Marshal(v)
 	if err != nil {
